@@ -27,6 +27,7 @@ func c14(c *eng.Ctx, r *eng.Report) {
 		"R14.7 VerifySig is the only function of the node that evaluates the signature pairing (no second, e.g. aggregated, definition of validity), and the scalar hex printer/parser are an inverse pair. " +
 		"R14.8 the pairing is 1 as soon as either operand is the identity: optimalAte tests IsInfinity() of both its operands and sets the result to one under either (e(P,O) = e(O,Q) = 1 is what bilinearity needs at k = 0 and k = order). " +
 		"R14.9 a groupsig function whose pointer result some caller dereferences without a nil test (`*groupsig.DeserializeSign(raw)`) has no nil return — a malformed signature from a peer verifies as false, it does not crash the verifier. " +
+		"R14.11 the key and signature decoders hand the curve decoder the bytes they were given: the argument of G1/G2.Unmarshal in Pubkey.Deserialize, Signature.Deserialize and unmarshalExact is the function's own parameter, not a buffer substituted on some condition of its content (an encoding that merely starts with 0x00 is not the identity); " +
 		"R14.10 negation keeps a point well-formed: twistPoint.Neg and curvePoint.Neg carry the cached z² (field t) over from their argument — zeroing it leaves an affine point (z = 1) with t = 0, which MakeAffine does not repair, and the Miller loop then computes a different value for the same group element (finding F26, fixed). " +
 		"Not decided: bilinearity, non-degeneracy, subgroup membership, soundness (algebraic; the baseline's curve tests sample them)."
 	r.Assume = []string{"bn256 Pair / PairIsEuqal implement the optimal Ate pairing and equality in GT"}
@@ -49,6 +50,7 @@ func c14(c *eng.Ctx, r *eng.Report) {
 	c14PairIdentity(c, r)
 	c14NoNilResult(c, r)
 	c14NegKeepsT(c, r)
+	c14DecoderInputVerbatim(c, r)
 }
 
 func c14Verify(c *eng.Ctx, r *eng.Report) {
@@ -325,8 +327,9 @@ func c14Purity(c *eng.Ctx, r *eng.Report) {
 	}
 }
 
-func c14LeftPad(c *eng.Ctx, r *eng.Report) {
-	const rule = "R14.5"
+func c14LeftPad(c *eng.Ctx, r *eng.Report) { c14LeftPadAs(c, r, "R14.5") }
+
+func c14LeftPadAs(c *eng.Ctx, r *eng.Report, rule string) {
 	r.Min(rule, 3)
 	derivesFromBigBytes := func(v ssa.Value) bool {
 		seen := map[ssa.Value]bool{}
@@ -382,6 +385,25 @@ func c14LeftPad(c *eng.Ctx, r *eng.Report) {
 				if sl, isS := a[0].(*ssa.Slice); isS && sl.Low != nil {
 					if bo, isB := sl.Low.(*ssa.BinOp); isB && bo.Op == token.SUB && strings.Contains(eng.Desc(bo.Y), "builtin:len(") {
 						ok = true
+					}
+				}
+				// …and the buffer is that value's own: a second right-aligned copy into the same array leaves the
+				// first value's leading bytes in front of a shorter second one
+				if sl, isS := a[0].(*ssa.Slice); isS && ok {
+					root := sl.X
+					uses := 0
+					for _, s2 := range eng.Sites(fn) {
+						if s2.Name() != "builtin:copy" {
+							continue
+						}
+						if sl2, isS2 := s2.Common().Args[0].(*ssa.Slice); isS2 && sl2.X == root {
+							if _, isAlloc := root.(*ssa.Alloc); isAlloc {
+								uses++
+							}
+						}
+					}
+					if uses > 1 {
+						r.Fail(rule, key+":buffer-reused", c.Pos(s.Pos()), eng.FuncName(fn)+" right-aligns more than one big integer in the same fixed-width array without clearing it in between: when a later value is shorter than an earlier one (a coordinate with a leading zero byte, 1 in 256) the earlier value's leading bytes stay in front of it — H(m) becomes an off-curve point, no member's share verifies and no group signature can be produced for that message")
 					}
 				}
 				r.Check(ok, rule, key, c.Pos(s.Pos()), "big-integer bytes are right-aligned in the fixed-width buffer", "the bytes of a big integer are copied to the start of a fixed-width big-endian buffer instead of to buf[W-len(b):]: a value with a leading zero byte (1 in 256) is encoded shifted, e.g. H(m) becomes an off-curve point and an honest signature fails to verify")
@@ -571,4 +593,32 @@ func c14NegKeepsT(c *eng.Ctx, r *eng.Report) {
 		}
 		r.Check(ok, rule, "neg-keeps-t:"+name, c.Pos(fn.Pos()), "the receiver's t is copied from the argument's t", name+": "+how+" instead of the argument's t: the negated point no longer satisfies t = z² — for an affine point (z = 1, every key parsed from bytes) MakeAffine leaves it alone and the pairing of the negated point is not the pairing of the same group element reached by scalar multiplication: e(P,Q)·e(P,−Q) ≠ 1")
 	}
+}
+
+// c14DecoderInputVerbatim: no content-dependent substitution before Unmarshal.
+func c14DecoderInputVerbatim(c *eng.Ctx, r *eng.Report) {
+	const rule = "R14.11"
+	r.Min(rule, 2)
+	n := 0
+	for _, name := range []string{"(*Pubkey).Deserialize", "(*Signature).Deserialize", "(*Signature).unmarshalExact"} {
+		fn := c.Func("consensus/groupsig", name)
+		if fn == nil {
+			continue
+		}
+		for _, s := range eng.Sites(fn) {
+			if !strings.HasSuffix(s.Name(), "G1).Unmarshal") && !strings.HasSuffix(s.Name(), "G2).Unmarshal") {
+				continue
+			}
+			n++
+			arg := s.Common().Args[len(s.Common().Args)-1]
+			isParam := false
+			for _, p := range fn.Params {
+				if arg == ssa.Value(p) {
+					isParam = true
+				}
+			}
+			r.Check(isParam, rule, "decoder-input:"+name, c.Pos(s.Pos()), "Unmarshal is given the parameter itself", name+" hands Unmarshal "+eng.Desc(arg)+" instead of the bytes it was given: the decoded key then depends on a rewrite of the input — e.g. any 128-byte key whose first byte is zero (1 in 144 honest keys) parsed as the identity, under which the all-zero signature verifies for every message")
+		}
+	}
+	r.Check(n >= 2, rule, "decoder-input:sites", "", fmt.Sprintf("%d Unmarshal calls in the key/signature decoders", n), fmt.Sprintf("only %d G1/G2.Unmarshal calls found in the decoders", n))
 }
